@@ -5,6 +5,7 @@ import (
 	"time"
 
 	"github.com/go-jose/go-jose/v4/jwt"
+	"github.com/google/uuid"
 	"github.com/luikyv/go-oidc/internal/joseutil"
 	"github.com/luikyv/go-oidc/internal/oidc"
 	"github.com/luikyv/go-oidc/pkg/goidc"
@@ -15,6 +16,11 @@ import (
 // considered opaque and its ID is the token itself.
 func ExtractID(ctx oidc.Context, token string) (string, error) {
 	if !joseutil.IsJWS(token) {
+		// Opaque tokens are never UUIDs, so the 'jti' claim of a JWT token
+		// cannot be used as the token itself. See opaqueTokenInfo.
+		if uuid.Validate(token) == nil {
+			return "", goidc.NewError(goidc.ErrorCodeInvalidToken, "invalid token")
+		}
 		return token, nil
 	}
 
